@@ -157,6 +157,10 @@ def run(ck: Check):
                             ("d/ppy.py", "d-ppy")):
             with open(os.path.join(work, rel), "w") as f:
                 f.write(f"MARKER = {marker!r}\ndef interesting(a, p):\n    return True\n")
+        for rel, body in (("d/broken.py", "def interesting(a, p)\n    return True\n"), ("d/raises.py", "raise RuntimeError('at import')\n"),
+                          ("boom.py", "x = 1 // 0\n"), ("d/exits.py", "import sys\nsys.exit(3)\n")):
+            with open(os.path.join(work, rel), "w") as f:
+                f.write(body)
         with open(os.path.join(work, "flags.rsp"), "w") as f:
             f.write("--char\n--strategy=check-only\n--min=4\n")
         for fn in ("t.txt", "other.txt", "x", "4", "yes.py.txt"):
@@ -270,6 +274,10 @@ def run(ck: Check):
                   (("@path=d",), "d/mytest.py", ("t.txt",), "d/mytest.py"),
                   (("@path=other,.",), "yes", ("t.txt",), "yes.py"),
                   (("@path=d",), "yes.py", ("t.txt",), "yes.py"),
+                  # the import of the test itself fails - with anything: the error comes out, sys.path is as it was
+                  ((), "d/broken.py", ("t.txt",), "SyntaxError"), ((), "d/raises.py", ("t.txt",), "RuntimeError"),
+                  ((), "boom", ("t.txt",), "ZeroDivisionError"), ((), "boom.py", ("t.txt",), "ZeroDivisionError"),
+                  ((), "d/exits.py", ("t.txt",), 3), (("@path=other",), "d/raises.py", ("t.txt",), "RuntimeError"),
                   # a same-named module in the directory at the very FRONT of sys.path (where `python -m lithium` has the
                   # current directory and a script has its own): the path given still names the test
                   (("@path0=other",), "d/yes.py", ("t.txt",), "d/yes.py"), (("@path0=.",), "d/yes.py", ("t.txt",), "d/yes.py"),
